@@ -1,0 +1,6 @@
+//go:build !verif
+
+package jsonrpc
+
+// vhook is a no-op unless built with the "verif" tag (see verif_hooks.go).
+func vhook(site string, conn interface{}, kv ...interface{}) {}
